@@ -435,9 +435,30 @@ def loop_correspondence(R, cases, tier):
                                 lambda c: c["meta"]["L"], tag="joltcorr2", npert=24)
         R.cov["loop_correspondence_second_look"] = st2
         R.cov["loop_first_look_differences"] = [f"{fn}: {why[:400]}" for (_, fn, why) in mism[:5]]
+        # third look, for differences in the EXIT DECISION only (the model stops one iteration earlier or later than the
+        # implementation, or would go on where it stopped): the relative-progress test `prev - v_len_sq <= eps * prev` compares
+        # at one ulp, and on an ill-conditioned final simplex the closest point amplifies a single differently rounded dot
+        # product (BLAS) to tens of ulps of v_len_sq.  Such a difference is excused only if the model's own exit flips under
+        # perturbations of 1e-14 / 1e-13 of the trace; the implementation's (d, a, b) of these inputs is judged by dist_cert
+        # like every other result.  (False alarm of the thorough tier, seed 0: tetrahedron mesh against a 0.3 x 9.2 x 0.46
+        # ellipsoid, 24 iterations.)
+        exit_only = [k for k, (j, fn, why) in enumerate(mism2) if why.startswith("model stops after") and "search direction" not in why and _exit_off_by_one(why)]
+        if exit_only:
+            sub3 = [sub[mism2[k][0]] for k in exit_only]
+            st3, mism3 = jc.compare(PID, [tc[i] for i in sub3], [out[i] for i in sub3], R.rng,
+                                    lambda c: c["meta"]["L"], tag="joltcorr3", npert=24, mags=(1e-14, 1e-13))
+            R.cov["loop_correspondence_third_look_exit_decisions"] = st3
+            still = {sub3[j] for (j, fn, why) in mism3}
+            mism2 = [m for k, m in enumerate(mism2) if k not in exit_only or sub[m[0]] in still]
         for (j, fn, why) in mism2[:5]:
             c = tc[sub[j]]
             R.corr_broken.append(f"Model/JoltLoop.v vs gjk_distance_jolt ({fn}): {why[:600]} on c1={json.dumps(c['c1'])} c2={json.dumps(c['c2'])}")
+
+
+def _exit_off_by_one(why):
+    import re
+    m = re.match(r"model stops after (\d+) iterations \(code (-?\d+)\), implementation made (\d+)", why)
+    return bool(m) and abs(int(m.group(1)) - int(m.group(3))) <= 1
 
 
 def targeted_search(R, tier):
